@@ -145,6 +145,10 @@ pub struct RunCfg {
     /// The set `Base::Avoid` keeps in flight.
     #[serde(default)]
     pub avoid: Vec<bool>,
+    /// An earlier run executed on the same graph value (on its default schedule, to the end)
+    /// before the explored run starts.
+    #[serde(default)]
+    pub pre: Option<Box<RunCfg>>,
 }
 
 /// The three StreamOpts builder steps in one of the 6 possible call orders.
@@ -188,11 +192,15 @@ impl RunCfg {
             budget_polls: 0,
             opts_order: 0,
             avoid: vec![],
+            pre: None,
         }
     }
 
     pub fn short(&self) -> String {
         let mut s = format!("{}", self.api.name());
+        if let Some(p) = &self.pre {
+            s = format!("[after {}] {s}", p.short());
+        }
         if self.opts_order != 0 {
             s += &format!(" opts-order={}", self.opts_order);
         }
